@@ -22,6 +22,7 @@ theorem flagsOk_iff (w : World) : FlagsOk w ↔ expected w.stack = some (w.colle
 @[simp] theorem expected_mapAlloc (a0) (rest : List Frame) : expected (Frame.mapAlloc a0 :: rest) = expected rest := expected_cons_neutral _ _ rfl
 @[simp] theorem expected_cleanEnd (a0 a1 a2) (rest : List Frame) : expected (Frame.cleanEnd a0 a1 a2 :: rest) = expected rest := expected_cons_neutral _ _ rfl
 @[simp] theorem expected_dropMoved (a0) (rest : List Frame) : expected (Frame.dropMoved a0 :: rest) = expected rest := expected_cons_neutral _ _ rfl
+@[simp] theorem expected_dropMany (a0 a1) (rest : List Frame) : expected (Frame.dropMany a0 a1 :: rest) = expected rest := expected_cons_neutral _ _ rfl
 @[simp] theorem expected_setRet (a0) (rest : List Frame) : expected (Frame.setRet a0 :: rest) = expected rest := expected_cons_neutral _ _ rfl
 
 @[simp] theorem fromT1_stack (w : World) (h : T1.Heap) : (fromT1 w h).stack = w.stack := rfl
